@@ -796,13 +796,32 @@ class Hist(Scenario):
     def op_stash(self, between=None, how=None):
         rng = self.rng
         args = rng.choice([["stash"], ["stash", "push", "-q", "-u"], ["stash", "push", "-q"]])
+        if not self.profile.get("stash_with_untracked_initial_pending", True):
+            # finding D70: `git stash` while an agent-created, still untracked file has INITIAL-only pending claims drops the prompt
+            # records of those claims (the file itself is not stashed); while it is open no stash is made in that state
+            unt = {l[3:] for l in self.w.ogit("status", "--porcelain", "-z").split("\0") if l.startswith("??")}
+            if unt & set(self.pending_initial_files()):
+                self.ops.append("stash:skipped-D70")
+                return
         self.report_human_edits()
         self.g(*args)
         self.ops.append("stash:push")
         if not self.w.ogit("stash", "list").strip():
             return
         between = rng.random() < 0.5 if between is None else between
-        if between:
+        if between and rng.random() < 0.25:
+            # instead of a person's commit: an agent edits two other files and only one of them is committed (pending INITIAL claims
+            # exist when the stash comes back)
+            touched = set(self.w.ogit("diff", "--name-only", "-z", "stash@{0}^1", "stash@{0}").split("\0"))
+            cands = [x for x in self.files if x not in touched and x in self.tracked()]
+            who = rng.choice(self.sessions)
+            nf = self.do_create(author=who)
+            if cands:
+                self.do_edit(author=who, f=rng.choice(cands), kinds=["ins"])
+                self.g("add", "--", self.log[-1][1])
+            self.g("commit", "-q", "--allow-empty", "-m", "between-stash: part of an agent's work")
+            self.ops.append("stash:between-partial")
+        elif between:
             f = None
             if not self.profile.get("stash_between_same_file", True):
                 touched = set(self.w.ogit("diff", "--name-only", "-z", "stash@{0}^1", "stash@{0}").split("\0"))
@@ -830,10 +849,31 @@ class Hist(Scenario):
         cur = self.current_branch() or "main"
         br = self.new_branch_name("sw")
         self.report_human_edits()
-        self.g("branch", br)
         cmd = rng.choice([["checkout", "-q"], ["switch", "-q"], ["checkout", "-q", "-m"], ["switch", "-q", "-m"]])
+        untracked = [l for l in self.w.ogit("status", "--porcelain", "-z").split("\0") if l.startswith("??")]
+        # finding D69: `checkout -m` / `switch -m` that really moves HEAD loses the attribution of files an agent created and that are
+        # still untracked; while it is open HEAD only moves when no untracked file is being carried
+        if "-m" in cmd and self.ncommits() > 1 and rng.random() < 0.6 and (self.profile.get("switch_m_untracked_new_file", True) or not untracked):
+            self.g("branch", br, "HEAD~1")      # HEAD really moves: the carried work is merged onto another commit
+        else:
+            self.g("branch", br)
         self.g(*cmd, br)
+        if self.unmerged():
+            if self.profile.get("rebase_conflicts", True):
+                self.resolve_conflicts(how=rng.choice(["ours", "theirs", "both"]))
+                self.g("reset", "-q")
+            else:
+                # conflicted carry-overs belong to the D20 / D23 family (lines of the commit that was left come back as local changes
+                # without attribution); while those are open the conflicted work is discarded
+                self.g("reset", "-q", "--hard")
+                self.ops.append("switch:conflict-discarded")
         self.ops.append("switch:" + "-".join(cmd))
+        if rng.random() < 0.3 and not self.unmerged():
+            # commit there, then carry new agent work back to the branch we came from with a plain switch
+            self.commit_all("on " + br)
+            self.do_edit(author=rng.choice(self.sessions), kinds=["ins"])
+            p = self.g("switch", "-q", cur)
+            self.ops.append("switch:back")
 
     # ------------------------------------------------------------------ destructive commands (C03)
     def op_destructive(self):
